@@ -210,8 +210,11 @@ def eval_sweep(case, rng):
 def eval_any(case, rng):
     nfl = rng.choice([0, 1, 1, 2, 3])
     flows = []
+    # half of the multi-connection scenes: addresses that agree in some coordinates (one client port towards several servers, one server, mirrored roles, v4/v6 twins)
+    pattern = rng.choice(gen.EP_PATTERNS) if nfl >= 2 and rng.random() < 0.5 else None
+    eps = gen.distinct_eps(rng, nfl, pattern) if pattern else [None] * nfl
     for i in range(nfl):
-        flows.append(gen.random_quic_flow(rng, i, napp=rng.choice([2, 6])) if rng.random() < 0.4 else gen.random_tls_flow(rng, i, nmax=8, segkinds=tcpcap.CUT_KINDS, perturb=rng.random() < 0.2, duplex=rng.random() < 0.25, repack=rng.random() < 0.15))
+        flows.append(gen.random_quic_flow(rng, i, ep=eps[i], napp=rng.choice([2, 6])) if rng.random() < 0.4 else gen.random_tls_flow(rng, i, ep=eps[i], nmax=8, segkinds=tcpcap.CUT_KINDS, perturb=rng.random() < 0.2, duplex=rng.random() < 0.25, repack=rng.random() < 0.15))
     if case["i"] % 12 == 5:
         # TLS 1.3 with a HelloRetryRequest (two plaintext ClientHellos on one connection): what is exported for it is nobody's claim, but "whatever the input" the
         # output must be a well-formed capture
@@ -276,7 +279,7 @@ def eval_any(case, rng):
         cap = scene.capture(items, le=rng.random() < 0.8)
     res, files, argv = e2e.run_capture(cap, keys, extra, legacy=legacy)
     out = {"cls": ["any", nfl, len(noise), fault, "+".join(opts), "legacy" if legacy else "ng"], "tags": [f"fault:{fault}"] + [f"opt:{o}" for o in opts],
-           "sample": {"case": case["id"], "flows": [f.label for f in flows], "noise": len(noise), "fault": fault, "args": extra, "packets": len(items), "legacy": legacy}}
+           "sample": {"case": case["id"], "flows": [f.label for f in flows], "addresses": pattern, "noise": len(noise), "fault": fault, "args": extra, "packets": len(items), "legacy": legacy}}
     fail = e2e.run_failed(res)
     if fail:
         return dict(out, v="inconclusive" if fail.startswith("INCONCLUSIVE") else "violated", msg=fail, files=dict(files, argv="\n".join(argv)))
